@@ -359,3 +359,6 @@ class C20(Prop):
 
 
 PROP = C20()
+
+PROP.rule += (" Strata added while closing seeded changes (DESIGN section 10): "
+              'binary caller streams, constructor/function calls, undecodable bytes late in the file, a prior call whose open() failed, descriptor-level os.open/os.read/os.close, a path naming a directory.')
